@@ -1224,6 +1224,7 @@ def bounded(seq, bounds, index=None, clip=True, nearest=True):
         n = len(seq); index = [i % n for i in index if -n <= i < n]
         at = intersect1d(at, index)
     if not len(at): return seq
+    if seq.dtype.kind in 'iub': seq = seq.astype(float) # bounds are float
     if clip:
         if nearest: # clip at closest bounds
             seq_at = seq[at]
